@@ -19,7 +19,7 @@ struct Outcome {
 fn run(events: [Ev; 3], n: usize) -> Outcome {
     let log = Rc::new(Cell::new(None));
     let mut cs = ConnectStream::empty();
-    cs.set_stream(StreamSession { script: Script { events, n, reads: 0 }, reset_log: log.clone() });
+    cs.set_stream(StreamSession { script: Script { events, n, reads: 0 }, reset_log: log.clone(), stop_log: Rc::new(Cell::new(None)) });
     let err = poll_once(cs.run()).expect("run() pending although the scripted stream never is");
     Outcome { err, reset: log.get(), taken: cs.is_empty(), reads: 0 }
 }
